@@ -155,10 +155,30 @@ func (w *World) deliverDC(ctx context.Context, q int, from int, payload []byte) 
 	w.net.mu.Unlock()
 	w.barrierSeq++
 	barrierID := peer.ID(fmt.Sprintf("verif-barrier-%d", w.barrierSeq))
-	_ = em.Emit(&iface.EventPubSubPayload{Payload: payload, Peer: w.net.ids[from]})
-	_ = em.Emit(&iface.EventPubSubPayload{Payload: barrierPayload(w.dbAddr), Peer: barrierID})
+	// (the emit blocks while the instance's direct-channel goroutine is not reading: bound it, so
+	// that an instance that stopped serving its channel shows up as an unhandled message, not a hang)
+	if w.unserved[q] {
+		w.printf("delivered %d quiesce=false unserved\n", q)
+		return
+	}
+	emitted := make(chan struct{})
+	go func() {
+		_ = em.Emit(&iface.EventPubSubPayload{Payload: payload, Peer: w.net.ids[from]})
+		_ = em.Emit(&iface.EventPubSubPayload{Payload: barrierPayload(w.dbAddr), Peer: barrierID})
+		close(emitted)
+	}()
 	ok := false
 	deadline := time.After(w.quiesceTimeout)
+	select {
+	case <-emitted:
+	case <-deadline:
+		if w.unserved == nil {
+			w.unserved = map[int]bool{}
+		}
+		w.unserved[q] = true
+		w.printf("delivered %d quiesce=false unserved\n", q)
+		return
+	}
 loop:
 	for {
 		select {
@@ -172,6 +192,15 @@ loop:
 		case <-ctx.Done():
 			break loop
 		}
+	}
+	if !ok && ctx.Err() == nil {
+		// the barrier message was never handled: the instance has stopped serving its channel
+		if w.unserved == nil {
+			w.unserved = map[int]bool{}
+		}
+		w.unserved[q] = true
+		w.printf("delivered %d quiesce=false unserved\n", q)
+		return
 	}
 	s := w.stores[q]
 	if s != nil {
